@@ -265,7 +265,16 @@ def run_reader(spec, res):
             bad += compare(prs[0][1], direct, False)
         if bad:
             res['refuted'] += 1
-            if eng.check3() == 'sat':
+            # prefer a model on which the two results really differ (e.g. not a reserved signal, which is N/A under every option)
+            pref = None
+            if len(prs) == 1 and prs[0][1] is not None:
+                pa, pb = msgdrv.public_attrs(prs[0][1]), msgdrv.public_attrs(direct)
+                for k_ in pa:
+                    ta, tb_ = sym.term_of(pa[k_]), sym.term_of(pb.get(k_))
+                    if len(ta) == 1 and len(tb_) == 1 and not ta[0].eq(tb_[0]) and ta[0].sort() == tb_[0].sort():
+                        pref = ta[0] != tb_[0]
+                        break
+            if (pref is not None and eng.check3(pref) == 'sat') or eng.check3() == 'sat':
                 m = eng.solver.model()
                 res['cex'].append({'kind': 'labelopt', 'payload': d.payload_from_model(m).hex(), 'options': [opt], 'via_reader': True, 'validate': validate,
                                    'why': "reader does not pass the label option through: " + "; ".join(bad[:3]), 'dedup': f"reader:{ident}:{opt}"})
